@@ -858,7 +858,10 @@ class CSSStyleSheet(cssutils.stylesheets.StyleSheet):
                 self._cssRules.insert(index, rule)
 
         # post settings
-        rule._parentStyleSheet = self
+        if rule in self._cssRules:
+            # an @charset or @namespace rule may only have updated an existing
+            # rule (or been cleaned away again) instead of being inserted itself
+            rule._parentStyleSheet = self
 
         if rule.IMPORT_RULE == rule.type and not rule.hrefFound:
             # try loading the imported sheet which has new relative href now
